@@ -96,6 +96,26 @@ theorem wakes_coalesced (hu : userPc s.pc = true) (hg : s.sharedGone = false)
     step s (.wake ans) = .ok { s with wk := { s.wk with sleep := Limits.sleepStateWoken }, woken := true } [] := by
   rcases hsl with h | h <;> simp [step, hu, hg, wakeByRef, h, Step.bind]
 
+/-- **yield_leaves_woken.**  A callback that answers YIELD leaves the sleep state WOKEN (never SLEEPING:
+no read of the wake-up stream was started for this answer), and it stays WOKEN until the host resumes the
+task — whatever other tasks, the host or wakers do in between. -/
+theorem yield_leaves_woken (hr : Reach d itw s) (hp : s.pc = .idle) (hl : s.last = some .yield) :
+    s.wk.sleep = Limits.sleepStateWoken :=
+  (reach_inv hr).lastYield.2 hp hl
+
+/-- **wake_after_yield_is_coalesced.**  A wake in the window between a YIELD answer and the callback that
+resumes the task — typically from ANOTHER component task, through a Rust-only event — writes nothing to
+the wake-up stream and calls no built-in; the callback that resumes the task then polls
+(`every_callback_polls`), so the wake is not lost either. -/
+theorem wake_after_yield_is_coalesced (hr : Reach d itw s) (hp : s.pc = .idle) (hl : s.last = some .yield) (ans : Nat) :
+    step s (.wake ans) = .ok { s with wk := { s.wk with sleep := Limits.sleepStateWoken }, woken := true } [] := by
+  have inv := reach_inv hr
+  have hg : s.sharedGone = false := by
+    cases hg : s.sharedGone with
+    | false => rfl
+    | true => have := (inv.refs.1 hg).2; simp [hp] at this
+  exact wakes_coalesced (by simp [hp, userPc]) hg (Or.inr (yield_leaves_woken hr hp hl)) ans
+
 /-- **read_cancelled_after_leaving_set_before_poll_or_drop (state).**  Whenever the tasks are polled,
 whenever user destructors run, and ever after the task state is destroyed, no wake-up read is pending. -/
 theorem no_read_pending_at_poll_or_drop (hr : Reach d itw s) (hp : noReadPc s.pc = true) : s.wk.reading = false :=
@@ -158,6 +178,17 @@ theorem wake_after_cancelled_sleep_is_noop :
   exact ⟨_, wake_after_exit_is_noop hr rfl rfl ans⟩
 
 /-! ## Non-vacuity -/
+
+/-- a task that never slept answers YIELD (it woke itself while polled); a wake before it is resumed changes
+nothing and writes nothing; the resuming callback polls -/
+example :
+    (match run (St.init .start true) [.start, .call 0 0 0, .cancelRead 0, .tau, .cloneRef, .wake 0, .pollDone false false,
+        .decide 0 0 0] with
+      | some s => match step s (.wake 0) with
+        | .ok s1 e1 => some (s.pc, s.last, s.wk.sleep, s.wk.stream, e1, s1.wk.sleep, s1.writes)
+        | _ => none
+      | none => none) = some (.idle, some .yield, 1, none, [], 1, 0) := by rfl
+
 
 /-- two wakes of a sleeping task: the first writes the one item, the second is coalesced -/
 example :
